@@ -129,6 +129,20 @@ def run(ck):
         for m in ("statistics", "statistics_from_samples", "sample"):
             ck.check(cls.find_method(m) is base.methods.get(m), "C16.R3", "%s inherits %s" % (cls.name, m), cls.module.relpath + ":" + cls.name,
                      "%s overrides %s: composite statistics may differ from the statistics of the combined value" % (cls.name, m))
+    # ------------------------------------------------------------------ R4 history independence (real leaves, three calls)
+    from .history import check_history
+
+    for cname, build in (("2*(a + b)", lambda it, a, b: binop(it, "Mult", VConst(2), binop(it, "Add", a, b, None), None)),
+                         ("a - 3*b", lambda it, a, b: binop(it, "Sub", a, binop(it, "Mult", VConst(3), b, None), None)),
+                         ("-a", lambda it, a, b: unaryop(it, "USub", a, None))):
+        def mk(it, build=build):
+            a, b, s, smp = _ctx(it, prog)
+            return (s, build(it, a, b), smp)
+
+        check_history(ck, "C16.R4", cname + ".apply", osite, mk, lambda it, c: call(it, c[1], "apply", c[0], c[2]), max_paths=40)
+        check_history(ck, "C16.R4", cname + ".statistics_from_samples", osite, mk,
+                      lambda it, c: it.ops.subscript(it, call(it, c[1], "statistics_from_samples", c[0], c[2]), VConst("mean"), None), max_paths=40)
+    ck.require_min("C16.R4", 6)
     ck.require_min("C16.R1", 40)
     ck.require_min("C16.R2", 20)
     ck.require_min("C16.R3", 40)
